@@ -14,6 +14,22 @@ import (
 type msgSpec struct {
 	Size int
 	PPI  PayloadProtocolIdentifier
+	// Rel, when set, re-configures the stream before this message is written.
+	Rel *relParams
+}
+
+type relParams struct {
+	Unordered bool
+	Type      byte
+	Val       uint32
+}
+
+// killRule: drop the first N transmissions of fragment Frag (-1: every fragment) of message Msg of stream SID.
+type killRule struct {
+	SID  uint16
+	Msg  int
+	Frag int
+	N    int
 }
 
 type streamSpec struct {
@@ -25,6 +41,8 @@ type streamSpec struct {
 	Msgs      []msgSpec
 	// RecvSameCfg: the receiver configures its stream object like the sender's.
 	RecvSameCfg bool
+	// RecvOpposite: the receiver configures its own sending policy with the opposite ordering.
+	RecvOpposite bool
 	// Gap between writes (virtual), 0 = back to back.
 	Gap time.Duration
 }
@@ -42,11 +60,18 @@ type xferSpec struct {
 	// KillTSN: drop the first KillN transmissions of the KillIdx-th DATA TSN sent by A (deterministic "kill" unit).
 	KillIdx []int
 	KillN   int
+	Kill    []killRule
 	// Hook run on main after connect (before writers start).
 	AfterConnect func(m *Sim)
 	// Extra final oracle.
 	Final func(m *Sim, x *Exec, r *xferResult)
 	NoFaultOnHandshake bool
+	// Interleave: one writer thread per endpoint writes message i of every stream in turn.
+	Interleave     bool
+	WriteGap       time.Duration // Interleave: pause between rounds
+	NoSackComplete bool
+	BeforeClose    func(m *Sim, r *xferResult)
+	ReaderDone     func(m *Sim, sid uint16)
 }
 
 type wroteMsg struct {
@@ -67,6 +92,7 @@ type xferResult struct {
 	DrainAt  time.Duration
 	HealAt   time.Duration
 	DoneAt   time.Duration
+	BufAtDrain [2]int
 }
 
 func (r *xferResult) init() {
@@ -132,6 +158,9 @@ func xferScenario(spec *xferSpec, res *xferResult) *Scenario {
 			if len(spec.KillIdx) > 0 {
 				installKill(m, spec)
 			}
+			if len(spec.Kill) > 0 {
+				installKillRules(m, spec)
+			}
 		},
 		Body: func(m *Sim) {
 			if !m.Connect(spec.A, spec.B) {
@@ -172,6 +201,8 @@ func xferScenario(spec *xferSpec, res *xferResult) *Scenario {
 						mu.Unlock()
 						if st, ok := specBySID[sid]; ok && st.RecvSameCfg {
 							s.SetReliabilityParams(st.Unordered, st.RelType, st.RelVal)
+						} else if ok && st.RecvOpposite {
+							s.SetReliabilityParams(!st.Unordered, st.RelType, st.RelVal)
 						}
 						rt := m.Go(fmt.Sprintf("read%d.%d", ep, sid), func() {
 							if spec.PauseReader > 0 {
@@ -199,31 +230,81 @@ func xferScenario(spec *xferSpec, res *xferResult) *Scenario {
 				}))
 			}
 			var writers []*vsched.Thread
-			for _, st := range spec.Streams {
-				st := st
-				writers = append(writers, m.Go(fmt.Sprintf("write%d.%d", st.From, st.SID), func() {
-					s, err := m.As[st.From].OpenStream(st.SID, PayloadTypeWebRTCBinary)
-					if err != nil {
-						m.Logf("open", "sid=%d err=%v", st.SID, err)
-						return
-					}
-					mu.Lock()
-					m.streamsSeen = append(m.streamsSeen, s)
-					mu.Unlock()
-					s.SetReliabilityParams(st.Unordered, st.RelType, st.RelVal)
-					for i, ms := range st.Msgs {
-						if st.Gap > 0 && i > 0 {
-							m.Sleep(st.Gap)
+			writeOne := func(s *Stream, st streamSpec, i int) {
+				ms := st.Msgs[i]
+				if ms.Rel != nil {
+					s.SetReliabilityParams(ms.Rel.Unordered, ms.Rel.Type, ms.Rel.Val)
+				}
+				data := payload(st.SID, i, ms.Size)
+				n, err := s.WriteSCTP(data, ms.PPI)
+				m.Logf(fmt.Sprintf("write sid=%d #%d len=%d ppi=%d", st.SID, i, ms.Size, ms.PPI), "n=%d err=%v", n, err)
+				mu.Lock()
+				res.Written[st.SID] = append(res.Written[st.SID], wroteMsg{Idx: i, Data: string(data), PPI: ms.PPI, Err: err, At: m.S.Now()})
+				mu.Unlock()
+				m.S.Yield()
+			}
+			openFor := func(st streamSpec) *Stream {
+				s, err := m.As[st.From].OpenStream(st.SID, PayloadTypeWebRTCBinary)
+				if err != nil {
+					m.Logf("open", "sid=%d err=%v", st.SID, err)
+					return nil
+				}
+				mu.Lock()
+				m.streamsSeen = append(m.streamsSeen, s)
+				mu.Unlock()
+				s.SetReliabilityParams(st.Unordered, st.RelType, st.RelVal)
+				return s
+			}
+			if spec.Interleave {
+				for ep := 0; ep < 2; ep++ {
+					ep := ep
+					var sts []streamSpec
+					for _, st := range spec.Streams {
+						if st.From == ep {
+							sts = append(sts, st)
 						}
-						data := payload(st.SID, i, ms.Size)
-						n, err := s.WriteSCTP(data, ms.PPI)
-						m.Logf(fmt.Sprintf("write sid=%d #%d len=%d ppi=%d", st.SID, i, ms.Size, ms.PPI), "n=%d err=%v", n, err)
-						mu.Lock()
-						res.Written[st.SID] = append(res.Written[st.SID], wroteMsg{Idx: i, Data: string(data), PPI: ms.PPI, Err: err, At: m.S.Now()})
-						mu.Unlock()
-						m.S.Yield()
 					}
-				}))
+					if len(sts) == 0 {
+						continue
+					}
+					writers = append(writers, m.Go(fmt.Sprintf("writeall%d", ep), func() {
+						ss := make([]*Stream, len(sts))
+						for i, st := range sts {
+							ss[i] = openFor(st)
+						}
+						for i := 0; ; i++ {
+							if i > 0 && spec.WriteGap > 0 {
+								m.Sleep(spec.WriteGap)
+							}
+							any := false
+							for k, st := range sts {
+								if i < len(st.Msgs) && ss[k] != nil {
+									any = true
+									writeOne(ss[k], st, i)
+								}
+							}
+							if !any {
+								break
+							}
+						}
+					}))
+				}
+			} else {
+				for _, st := range spec.Streams {
+					st := st
+					writers = append(writers, m.Go(fmt.Sprintf("write%d.%d", st.From, st.SID), func() {
+						s := openFor(st)
+						if s == nil {
+							return
+						}
+						for i := range st.Msgs {
+							if st.Gap > 0 && i > 0 {
+								m.Sleep(st.Gap)
+							}
+							writeOne(s, st, i)
+						}
+					}))
+				}
 			}
 			m.Join(writers...)
 			// wait for the senders to drain and for every reliable message to be read
@@ -253,7 +334,9 @@ func xferScenario(spec *xferSpec, res *xferResult) *Scenario {
 				m.Sleep(500 * time.Millisecond)
 				m.WaitUntil("settle", 5*time.Second, func() bool { return m.W.idle() })
 			}
-			snapshotBeforeClose(m, res)
+			if spec.BeforeClose != nil {
+				spec.BeforeClose(m, res)
+			}
 			m.CloseBoth()
 			res.DoneAt = m.S.Now()
 			m.Join(acceptors...)
@@ -267,6 +350,69 @@ func xferScenario(spec *xferSpec, res *xferResult) *Scenario {
 				spec.Final(m, x, res)
 			}
 		},
+	}
+}
+
+// fragKey identifies a fragment by its bytes (payloads are pairwise distinct by construction).
+type fragID struct {
+	SID  uint16
+	Msg  int
+	Frag int
+}
+
+func fragTable(spec *xferSpec) map[string]fragID {
+	tab := map[string]fragID{}
+	for _, st := range spec.Streams {
+		cfg := spec.A
+		if st.From == 1 {
+			cfg = spec.B
+		}
+		mtu := cfg.MTU
+		if mtu == 0 {
+			mtu = initialMTU
+		}
+		il := !spec.A.NoInterleave && !spec.B.NoInterleave
+		P := int(maxPayloadSizeForMTU(mtu, il))
+		for i, ms := range st.Msgs {
+			data := payload(st.SID, i, ms.Size)
+			for f := 0; f*P < len(data); f++ {
+				end := (f + 1) * P
+				if end > len(data) {
+					end = len(data)
+				}
+				tab[fmt.Sprintf("%d/%s", st.SID, data[f*P:end])] = fragID{st.SID, i, f}
+			}
+		}
+	}
+	return tab
+}
+
+func installKillRules(m *Sim, spec *xferSpec) {
+	tab := fragTable(spec)
+	count := map[fragID]int{}
+	m.W.killFn = func(p *wpkt) bool {
+		if p.dec == nil {
+			return false
+		}
+		kill := false
+		for _, c := range p.dec.Chunks {
+			if c.Typ != wDATA && c.Typ != wIDATA {
+				continue
+			}
+			id, ok := tab[fmt.Sprintf("%d/%s", c.SID, c.Data)]
+			if !ok {
+				continue
+			}
+			for _, r := range spec.Kill {
+				if r.SID == id.SID && r.Msg == id.Msg && (r.Frag < 0 || r.Frag == id.Frag) {
+					count[id]++
+					if count[id] <= r.N {
+						kill = true
+					}
+				}
+			}
+		}
+		return kill
 	}
 }
 
@@ -307,8 +453,6 @@ func installKill(m *Sim, spec *xferSpec) {
 		return kill
 	}
 }
-
-var snapshotBeforeClose = func(m *Sim, res *xferResult) {}
 
 // ---------------------------------------------------------------------------------
 // delivery oracle
@@ -355,26 +499,29 @@ func checkDelivery(m *Sim, oracle string, st streamSpec, written []wroteMsg, rea
 		}
 		ids = append(ids, id)
 	}
-	ordered := !st.Unordered
-	if ordered {
-		for i := 1; i < len(ids); i++ {
-			if ids[i] < ids[i-1] {
-				m.Failf(oracle, "stream %d (ordered): delivery order %v is not a subsequence of the write order", st.SID, ids)
-				return
+	// per-message ordering: stream default, per-message overrides, DCEP always ordered
+	isOrdered := func(id int) bool {
+		u := st.Unordered
+		for i := 0; i <= id && i < len(st.Msgs); i++ {
+			if r := st.Msgs[i].Rel; r != nil {
+				u = r.Unordered
 			}
 		}
-	} else {
-		// DCEP messages are ordered among themselves
-		last := -1
-		for _, id := range ids {
-			if acc[indexOf(acc, id)].PPI == PayloadTypeWebRTCDCEP {
-				if id < last {
-					m.Failf(oracle, "stream %d: DCEP messages delivered out of order %v", st.SID, ids)
-					return
-				}
-				last = id
-			}
+		if id < len(st.Msgs) && st.Msgs[id].PPI == PayloadTypeWebRTCDCEP {
+			u = false
 		}
+		return !u
+	}
+	last := -1
+	for _, id := range ids {
+		if !isOrdered(id) {
+			continue
+		}
+		if id < last {
+			m.Failf(oracle, "stream %d: ordered messages delivered as %v, not a subsequence of the write order", st.SID, ids)
+			return
+		}
+		last = id
 	}
 	if complete && isReliable(st) {
 		if len(ids) != len(acc) {
